@@ -42,7 +42,7 @@ ASSUMPTIONS = [
     "an exception escaping data_received on a noisy stream makes the run void (C14); on a clean stream it is a violation (promised messages lost)",
     "the absolute clean-stream oracle is used only with candidate lists in which exactly one reader matches the stream's type and configuration",
 ]
-MUST_FIRE = {"quick": ["valid_message_with_empty_payload", "selected_second_candidate", "invalid_withheld", "clean_absolute_checked", "empty_candidate_list", "selection_after_first_chunk", "reconnect_with_same_candidate_sequence", "candidates_as_tuple", "bystander_protocol_instance", "stalled_delivery", "tie_between_candidates"], "thorough": ["selected_second_candidate", "invalid_withheld", "clean_absolute_checked", "empty_candidate_list", "selection_after_first_chunk"]}
+MUST_FIRE = {"quick": ["valid_message_with_empty_payload", "selected_second_candidate", "invalid_withheld", "clean_absolute_checked", "empty_candidate_list", "selection_after_first_chunk", "reconnect_with_same_candidate_sequence", "candidates_as_tuple", "bystander_protocol_instance", "stalled_delivery", "tie_between_candidates", "candidates_built_inline", "chunks_as_reused_bytearray"], "thorough": ["selected_second_candidate", "invalid_withheld", "clean_absolute_checked", "empty_candidate_list", "selection_after_first_chunk"]}
 
 
 def _cand_lists(rng, cfg):
@@ -98,6 +98,8 @@ def gen(rng, tier, index):
         first = next(c02.gen(rng, tier, index))
         earlier = {"kind": "clean_hdlc", "c02": {"cfg": first["cfg"], "items": first["items"][:7]}} if rng.random() < 0.5 else {"kind": "clean_p1", "c05": {"readouts": specs}}
         sc["reuse"] = {"stream": earlier, "cuts": {"m": "fixed", "k": rng.choice([1, 7, 64, 100000])}}
+    if rng.random() < 0.12:
+        sc["inline"] = True  # the caller keeps no reference to the candidate readers
     yield sc
 
 
@@ -212,6 +214,15 @@ def _execute_once(sc):
         shadows0 = copy.deepcopy(readers)
         proto = cls(q, handed)
         proto.connection_made(_Transport())
+        if sc.get("inline"):
+            # the caller built the candidates inline (cls(queue, [HdlcFrameReader(), ModeDReader()])) and keeps no
+            # reference of its own: the protocol alone has to keep its readers alive
+            import gc
+
+            readers = handed = None
+            if sc.get("reuse"):
+                earlier = None
+            gc.collect()
     finally:
         asyncio.events._set_running_loop(None)
     errors = []
@@ -227,6 +238,9 @@ def _execute_once(sc):
         other_wire = bytes.fromhex(sc["bystander"])
         other_pos = [0]
 
+    chunk_as = sc["cuts"].get("as")
+    rx = bytearray()
+
     def deliver(chunk, idx):
         if other is not None and other_pos[0] < len(other_wire):
             step = 1 + (idx * 11) % 37
@@ -235,8 +249,14 @@ def _execute_once(sc):
             except Exception:  # noqa: BLE001 - the bystander's own trouble is not judged here
                 pass
             other_pos[0] += step
+        arg = chunk
+        if chunk_as == "bytearray":
+            arg = bytearray(chunk)  # a transport may hand over a bytearray; every candidate must still see all of it
+        elif chunk_as == "reused_bytearray":
+            rx[:] = chunk  # one receive buffer, refilled before every delivery
+            arg = rx
         try:
-            proto.data_received(chunk)
+            proto.data_received(arg)
         except Exception as ex:  # noqa: BLE001
             errors.append((idx, ex))
 
@@ -373,6 +393,10 @@ def _execute_once(sc):
         probes["candidates_as_tuple"] = 1
     if stall:
         probes["stalled_delivery"] = 1
+    if chunk_as:
+        probes[f"chunks_as_{chunk_as}"] = 1
+    if sc.get("inline"):
+        probes["candidates_built_inline"] = 1
     if reuse_failed:
         void = True
         viol = []
@@ -399,11 +423,13 @@ def summarise(sc):
 
 
 def candidates(sc):
+    for simpler in fragment.simpler(sc["cuts"]):
+        yield dict(copy.deepcopy(sc), cuts=simpler)
     if sc["cuts"]["m"] == "list":
         for red in shrink.list_reductions(sc["cuts"]["at"]):
-            yield dict(copy.deepcopy(sc), cuts={"m": "list", "at": red} if red else {"m": "whole"})
+            yield dict(copy.deepcopy(sc), cuts=fragment.keep(sc["cuts"], {"m": "list", "at": red} if red else {"m": "whole"}))
     elif sc["cuts"]["m"] == "fixed":
-        yield dict(copy.deepcopy(sc), cuts={"m": "whole"})
+        yield dict(copy.deepcopy(sc), cuts=fragment.keep(sc["cuts"], {"m": "whole"}))
     if sc.get("bystander"):
         yield {k: v for k, v in copy.deepcopy(sc).items() if k != "bystander"}
     if sc.get("reuse"):
